@@ -216,9 +216,9 @@ Lemma lookup_hit_nowait x t name opt c :
 Proof. intros L H. unfold local_step. simpl allowed. rewrite L. simpl. now rewrite H. Qed.
 
 Lemma lookup_hit_async x tok t name opt c :
-  in_states (life x) [Open; Closing] = true ->
+  in_states (life x) [Open; Closing] = true -> tok_used x tok = false ->
   find (t, name) (res x) = Some c -> local_step (AGetBegin tok t name opt) x = (x, Val (cvalue c)).
-Proof. intros L H. unfold local_step. simpl allowed. rewrite L. simpl. now rewrite H. Qed.
+Proof. intros L U H. unfold local_step. simpl allowed. rewrite L. simpl. now rewrite U, H. Qed.
 
 (* adding under a taken pair (on any of several types) raises ResourceConflict *)
 Lemma add_resource_conflict x n vty name types desc cb :
@@ -431,7 +431,8 @@ Lemma evlog_lookup_existing x t name opt c :
   evlog (fst (local_step (AGetNowait t name opt) x)) = evlog x /\
   forall tok, evlog (fst (local_step (AGetBegin tok t name opt) x)) = evlog x.
 Proof.
-  intro H. unfold local_step. simpl allowed. destruct (negb _); simpl; auto. now rewrite H.
+  intro H. unfold local_step. simpl allowed. destruct (negb _); simpl; auto. rewrite H.
+  split; auto. intro tok. destruct (tok_used x tok); reflexivity.
 Qed.
 
 Lemma evlog_store_generated x f v :
